@@ -291,6 +291,8 @@ def legs_minipy(res, r, tier):
 
 # ------------------------------------------------------------------------------------------------ execution oracle
 TEMPLATES = [
+    # keyword-only defaults are evaluated in the ENCLOSING scope: names of enclosing locals, literals that occur nowhere else
+    "def build(size, label):\n    def inner(*, size=size, label=label, extra=None):\n        return size, label, extra\n    pick = lambda *, i=size, j=label: (i, j)\n    return inner(), inner(size=1), pick(), pick(i=2)\nprint(build(10, 'ten'))\ndef only_here(*, first=None, second=None, third=None, fourth='dflt', fifth='dflt', sixth='dflt'):\n    return first, second, third, fourth, fifth, sixth\nprint(only_here(), only_here(first=1, sixth=6))\nclass Config:\n    def method(self, *, retries=3, mode='fast', fallback='fast', other='fast'):\n        return retries, mode, fallback, other\nprint(Config().method(), Config().method(mode='slow'))\n",
     # a bare return that ends a try suite which has an else clause (the else must not run), returns inside if/with/loops at the end of a function
     "def load(flag):\n    try:\n        if flag:\n            print('work')\n        return\n    except ValueError:\n        print('handler')\n    else:\n        print('else must not run')\nload(True)\nload(False)\ndef guarded(resource, flag):\n    if flag:\n        with resource:\n            try:\n                print('inside')\n                return None\n            except KeyError:\n                return\n            else:\n                print('unreachable else')\n            finally:\n                print('finally')\n    else:\n        return\nimport contextlib\nprint(guarded(contextlib.nullcontext(), True), guarded(None, False))\ndef looped(items):\n    for item in items:\n        if item:\n            return\n    else:\n        print('loop else')\n    return None\nprint(looped([0, 0]), looped([0, 1]))\n",
     # builtin exceptions raised with keyword arguments only, with star arguments, and with none
